@@ -134,6 +134,8 @@ EXPRS += [
     ("expr", "src/collections/vec.rs", "append_elements", ("arg", "reserve", 1, 0), "vec_append_reserves", ("count",)),
     ("expr", "src/collections/vec.rs", "append_elements", ("arg", "copy_nonoverlapping", 1, 1), "vec_append_copy_dst", ("count",)),
     ("expr", "src/collections/vec.rs", "append_elements", ("arg", "copy_nonoverlapping", 1, 2), "vec_append_copy_len", ("count",)),
+    # DrainFilter: the length its destructor restores
+    ("expr", "src/collections/vec.rs", "impl:Drop for DrainFilter:drop", ("arg", "set_len", 1, 0), "vec_drain_filter_drop_new_len"),
     # Drain::drop: whether there is a tail to move back, whether it has to move, the memmove and the new length
     ("expr", "src/collections/vec.rs", "impl:Drop for Drain:drop", ("if", 1), "vec_drain_drop_has_tail"),
     ("expr", "src/collections/vec.rs", "impl:Drop for Drain:drop", ("if", 2), "vec_drain_drop_must_move"),
@@ -254,6 +256,23 @@ FRAMES = [
      "iftail!=start{letsrc=source_vec.as_ptr().add(tail);letdst=source_vec.as_mut_ptr().add(start);ptr::copy(src,dst,self.tail_len);}source_vec.set_len(start+self.tail_len);"),
     ("src/collections/vec.rs", "drain", "vec_drain_shortens_first",
      "self.set_len(start);"),
+    ("src/collections/vec.rs", "partition_dedup_by", "vec_dedup_partition_loop",
+     "letlen=s.len();iflen<=1{return(s,&mut[]);}letptr=s.as_mut_ptr();letmutnext_read:usize=1;letmutnext_write:usize=1;unsafe{whilenext_read<len{letptr_read=ptr.add(next_read);letprev_ptr_write=ptr.add(next_write-1);if!same_bucket(&mut*ptr_read,&mut*prev_ptr_write){ifnext_read!=next_write{letptr_write=prev_ptr_write.offset(1);mem::swap(&mut*ptr_read,&mut*ptr_write);}next_write+=1;}next_read+=1;}}s.split_at_mut(next_write)"),
+    ("src/collections/vec.rs", "retain", "vec_retain_is_drain_filter", "{self.drain_filter(|x|!f(x));}"),
+    ("src/collections/vec.rs", "drain_filter", "vec_drain_filter_hides_elements_first",
+     "{letold_len=self.len();unsafe{self.set_len(0);}DrainFilter{vec:self,idx:0,del:0,old_len,pred:filter,}}"),
+    ("src/collections/vec.rs", "dedup_by", "vec_dedup_by_partitions_then_truncates",
+     "{letlen={let(dedup,_)=partition_dedup_by(self.as_mut_slice(),same_bucket);dedup.len()};self.truncate(len);}"),
+    ("src/collections/vec.rs", "impl:Iterator for DrainFilter:next", "vec_drain_filter_step",
+     "whileself.idx!=self.old_len{leti=self.idx;self.idx+=1;self.del+=1;letv=slice::from_raw_parts_mut(self.vec.as_mut_ptr(),self.old_len);if(self.pred)(&mutv[i]){returnSome(ptr::read(&v[i]));}self.del-=1;ifself.del>0{letdel=self.del;letsrc:*constT=&v[i];letdst:*mutT=&mutv[i-del];ptr::copy_nonoverlapping(src,dst,1);}}None"),
+    ("src/collections/vec.rs", "impl:Drop for DrainFilter:drop", "vec_drain_filter_drop_exhausts_first",
+     "{self.for_each(drop);unsafe{self.vec.set_len(self.old_len-self.del);}}"),
+    ("src/collections/vec.rs", "into_bump_slice", "vec_into_bump_slice_forgets",
+     "{unsafe{letptr=self.as_ptr();letlen=self.len();mem::forget(self);slice::from_raw_parts(ptr,len)}}"),
+    ("src/collections/vec.rs", "into_bump_slice_mut", "vec_into_bump_slice_mut_forgets",
+     "{letptr=self.as_mut_ptr();letlen=self.len();mem::forget(self);unsafe{slice::from_raw_parts_mut(ptr,len)}}"),
+    ("src/collections/vec.rs", "into_boxed_slice", "vec_into_boxed_slice_forgets",
+     "unsafe{letslice=slice::from_raw_parts_mut(self.as_mut_ptr(),self.len);letoutput:Box<'bump,[T]>=Box::from_raw(slice);mem::forget(self);output}"),
     ("src/collections/vec.rs", "push", "vec_push_writes_then_counts",
      "{ifself.len==self.buf.cap(){self.reserve(1);}unsafe{letend=self.buf.ptr().add(self.len);ptr::write(end,value);self.len+=1;}}"),
     ("src/collections/vec.rs", "pop", "vec_pop_counts_then_reads",
@@ -284,6 +303,8 @@ FRAMES = [
     ("src/collections/string.rs", "retain", "string_retain_loop",
      "letlen=self.len();letmutguard=SetLenOnDrop{s:self,idx:0,del_bytes:0,};whileguard.idx<len{letch=unsafe{guard.s.get_unchecked(guard.idx..len).chars().next().unwrap()};letch_len=ch.len_utf8();if!f(ch){guard.del_bytes+=ch_len;}elseifguard.del_bytes>0{unsafe{ptr::copy("),
     ("src/collections/string.rs", "retain", "string_retain_advances_after_callback", ");}}guard.idx+=ch_len;}drop(guard);}"),
+    ("src/collections/string.rs", "into_bump_str", "string_into_bump_str_forgets",
+     "{lets=unsafe{lets=self.as_str();mem::transmute(s)};mem::forget(self);s}"),
     ("src/collections/string.rs", "remove", "string_remove_decodes_at_idx",
      "letch=matchself[idx..].chars().next(){Some(ch)=>ch,None=>panic!("),
     ("src/collections/string.rs", "remove", "string_remove_moves",
